@@ -539,12 +539,13 @@ int __wrap_pthread_create(pthread_t *thr, const pthread_attr_t *attr, void *(*fn
     *thr = th->real;
     return 0;
 }
+static int vs_joined[VS_MAX_THREADS];
+/* pthread_t values are recycled once a thread has been joined: match the newest thread not yet joined */
 static int vs_find_thread(pthread_t t) {
-    for (int i = 0; i < vs_nthreads; ++i)
-        if (i == 0 ? pthread_equal(t, vs_th[0].real) : pthread_equal(t, vs_th[i].real)) return i;
+    for (int i = vs_nthreads - 1; i >= 0; --i)
+        if (vs_joined[i] != 1 && pthread_equal(t, vs_th[i].real)) return i;
     return -1;
 }
-static int vs_joined[VS_MAX_THREADS];
 int __wrap_pthread_join(pthread_t t, void **ret) {
     if (VS_PASS) return __real_pthread_join(t, ret);
     int id = vs_find_thread(t);
